@@ -206,5 +206,24 @@ func c08Scenarios(tier string) []*Scenario {
 			}
 		}
 	}
+	if maxN < 4 {
+		// quick tier: two four-task shapes with every outcome assignment and completion order (no preemptions): a join
+		// whose one branch is a chain (the failure of the short branch arrives while the long one is still waiting), and
+		// the diamond
+		for _, g := range []map[string][]string{{"a": nil, "c": nil, "b": {"c"}, "d": {"a", "b"}}, graphDiamond} {
+			for _, cont := range []bool{false, true} {
+				g, cont := g, cont
+				cfg := PipeCfg{Conc: 1, QL: -1, Graph: g, Continue: cont}
+				scs = append(scs, &Scenario{
+					Name:   fmt.Sprintf("dag4/%s/allow=/continue=%v", graphString(g), cont),
+					Desc:   "one job; every assignment of success/failure to its tasks, every completion order",
+					Opts:   func() WorldOpts { return WorldOpts{Defs: defsOf(cfg)} },
+					Setup:  func(w *World) { w.SpawnDriver(Op{Kind: "S", Pipeline: "p"}) },
+					Check:  func(w *World, x *Exec) []Violation { return allMonitors(w, false) },
+					FailOK: true, NoTick: true, Bound: intp(0),
+				})
+			}
+		}
+	}
 	return scs
 }
